@@ -223,3 +223,10 @@ def agg_frame(n=None, label="df", columns=()):
 
 def is_nan(x):
     return x != x
+
+
+def sorted_frame(n):
+    raise RuntimeError("sorted_frame() has no native meaning (sorted-index model); see bounded/C20_windows.py")
+
+
+timestamp = label_at = has_complete = sorted_frame
